@@ -96,6 +96,7 @@ def check(ctx):
     else:
         ctx.undecided('SIB', 'unpack_sections / unpack_lots agree on the range skeleton', 'one skeleton not recognised')
     ctx.attempt(_routes)
+    ctx.attempt(_sibling_through)
     unp = [f for f in ctx.repo.funcs.values() if f.module.name.endswith('unpack.unpackers')]
     if common.flag_drops(ctx, unp) == 0:
         ctx.ok('RX-FLAGS', 'unpackers: no compiled regex is re-applied by its bare pattern text')
@@ -316,6 +317,38 @@ def _range_algebra(ctx, fi, kind):
     return sorted(summary)
 
 
+def _sibling_through(ctx):
+    """Both unpackers decide "the number to the left is joined by a through-word"
+    the same way: from thru_rightmost(<match>) alone.  One of them narrowing
+    the condition (and not ..., or ...) makes the two list grammars differ."""
+    vals = []
+    for spec in ('SecUnpacker.unpack_sections', 'LotUnpacker.unpack_lots'):
+        fi = ctx.repo.func(spec)
+        asg = [n for n in walk_local(fi.node) if isinstance(n, ast.Assign) and norm(n.targets[0]) == 'found_through'
+               and not isinstance(n.value, ast.Constant)]
+        vals.append((fi, asg))
+    construct = 'Sec and Lot unpackers both take found_through from thru_rightmost(match) alone'
+    if not all(a for _f, a in vals):
+        ctx.undecided('SIB', construct, 'found_through assignment not recognised in both unpackers')
+        return
+    kinds = []
+    for fi, asg in vals:
+        v = asg[-1].value
+        while isinstance(v, ast.Call) and dotted(v.func) == 'bool' and v.args:
+            v = v.args[0]
+        plain = isinstance(v, ast.Call) and dotted(v.func) == 'thru_rightmost'
+        narrowed = isinstance(v, ast.BoolOp) and any(isinstance(x, ast.Call) and dotted(x.func) == 'thru_rightmost'
+                                                      for x in v.values)
+        kinds.append('plain' if plain else 'narrowed' if narrowed else 'other')
+    bad = set(kinds) == {'plain', 'narrowed'}
+    culprit = next((f for (f, a), k in zip(vals, kinds) if k == 'narrowed'), vals[0][0])
+    ctx.tri(kinds == ['plain', 'plain'], bad, 'SIB', construct,
+            detail_bad=f"{culprit.qualname} combines thru_rightmost() with a further condition "
+                       f"(`{norm(vals[[f for f, _ in vals].index(culprit)][1][-1])[:80]}`) while its sibling does not: ranges written "
+                       f"with a repeated word ('Lot 1 - Lot 3') are expanded by one unpacker and not by the other",
+            key=f"SIB|found_through|{culprit.qualname}", where=culprit.loc)
+
+
 def _routes(ctx):
     fi = ctx.repo.func('plss_preprocess:find_sec')
     txt = ' '.join(norm(s) for s in fi.node.body)
@@ -328,6 +361,14 @@ def _routes(ctx):
               'SecFinder.new_match stores SecUnpacker(match).sec_list')
     fi = ctx.repo.func('PLSSParser.construct_tracts')
     loops = [n for n in walk_local(fi.node) if isinstance(n, ast.For) and "tract_data['sec']" in norm(n.iter)]
+    for lp in loops:
+        dd = [c for c in ast.walk(lp.iter) if isinstance(c, ast.Call) and (dotted(c.func) or '') in (
+            'set', 'dict.fromkeys', 'frozenset', 'sorted', 'OrderedDict.fromkeys', 'reversed', 'collections.OrderedDict.fromkeys')]
+        ctx.check(not dd, 'ROUTE', 'construct_tracts walks the staged section list as it is (duplicates and order kept)',
+                  f"for ... in {norm(lp.iter)}",
+                  f"`for ... in {norm(lp.iter)}` drops repeated section numbers / changes their order: "
+                  f"'Sec 1 - 3, 3 - 5' yields fewer tracts than find_sec() returns sections",
+                  key="ROUTE|construct_tracts|iter", where=common.loc(fi, lp))
     ok = False
     for lp in loops:
         body = ' '.join(norm(s) for s in lp.body)
